@@ -189,3 +189,23 @@ H("ackfreq_sender_bookkeeping", ["C03"], "quick", "connection::ack_frequency::se
   ["reached", "request acknowledged"],
   ["AckFrequencyState::max_ack_delay_for_pto", "AckFrequencyState::on_acked", "AckFrequencyState::next_sequence_number", "AckFrequencyState::ack_frequency_sent"],
   "all durations < 2^16 us, all u64 packet numbers")
+
+# ------------------------------------------------------------------ congestion controllers (C12.a)
+H("newreno_step", ["C12"], "quick", "congestion::new_reno::step",
+  [("window", "u64"), ("ssthresh", "u64"), ("bytes_acked", "u64"), ("mtu", "u16"), ("recovery_secs", "u32"), ("op", "u8"),
+   ("now_secs", "u32"), ("sent_secs", "u32"), ("bytes", "u32"), ("app_limited", "bool"), ("persistent", "bool"), ("ecn", "bool"), ("new_mtu", "u16"), ("factor_q", "u8")], 6,
+  ["on_ack", "on_congestion_event", "on_mtu_update", "on_spurious_congestion_event"],
+  ["NewReno::on_ack", "NewReno::on_congestion_event", "NewReno::on_mtu_update", "NewReno::window", "NewReno::minimum_window"],
+  "one event from every state with 2*mtu <= window < 2^62, every ssthresh: u64, mtu/new_mtu >= 1200, acked/lost bytes < 2^32, loss_reduction_factor in {0, .25, .5, .75, 1}",
+  assumes=["controller starts with window >= 2 * mtu (a configured initial_window below two datagrams of a large initial_mtu is outside the claim)"])
+H("cubic_step", ["C12"], "quick", "congestion::cubic::step",
+  [("window", "u64"), ("ssthresh", "u64"), ("cwnd_inc", "u64"), ("mtu", "u16"), ("has_rec", "bool"), ("recovery_secs", "u32"), ("w_max_q", "u32"),
+   ("has_prior", "bool"), ("prior_window", "u64"), ("op", "u8"), ("now_secs", "u32"), ("sent_secs", "u32"), ("bytes", "u32"), ("persistent", "bool"), ("ecn", "bool"), ("new_mtu", "u16")], 6,
+  ["slow-start ack", "on_congestion_event", "on_mtu_update", "on_spurious_congestion_event"],
+  ["Cubic::on_ack (slow start)", "Cubic::on_congestion_event", "Cubic::on_spurious_congestion_event", "Cubic::on_mtu_update", "Cubic::window", "State::cubic_k"],
+  "one event from every state with 2*mtu <= window < 2^40, mtu/new_mtu >= 1200; congestion-avoidance branch of on_ack outside the claim", timeout=900)
+H("bbr_window_step", ["C12"], "quick", "congestion::bbr::window_step",
+  [("initial_window", "u64"), ("mtu", "u16"), ("mode", "u8"), ("rec", "u8"), ("cwnd", "u64"), ("recovery_window", "u64"), ("op", "u8"), ("new_mtu", "u16"), ("acked", "u32"), ("lost", "u32"), ("in_flight", "u32")], 6,
+  ["on_mtu_update", "calculate_recovery_window", "mtu update while in recovery outside Startup"],
+  ["Bbr::on_mtu_update", "Bbr::window", "Bbr::calculate_recovery_window", "calculate_min_window"],
+  "one step from every state with cwnd >= 4*mtu (and recovery_window >= 4*mtu while in recovery), modes Startup/Drain/ProbeBw (ProbeRtt's f64 BDP target outside the claim), mtu/new_mtu >= 1200")
